@@ -24,9 +24,18 @@
 (*  kind "gens" (map, n in 1..NQ): all letters of the mapping on n qubits  *)
 (*  kind "word": EVERY fermi word of length <= LMAX over NM modes with its *)
 (*     images under the three mappings on NM qubits                        *)
+(*  kind "sent": EVERY two-term sentence 1/2 w1 + (-3+2i)/4 w2 with w1 a   *)
+(*     fermi word of length <= 1 and w2 of length 2 over NS modes, with    *)
+(*     its images under the three mappings on NS qubits RELABELLED by      *)
+(*     EVERY injective wire map of the NS wires into the labels 1..NK      *)
+(*     (NK > NS: permutations of the wires, maps that overlap the wires    *)
+(*     and leave them, the identity map); laws decided on the reference:   *)
+(*     relabel-sum      relabelling the image of the sentence = the sum of *)
+(*                      the relabelled images of its words                 *)
+(*     relabel-product  relabelling is multiplicative on the images        *)
 (***************************************************************************)
 EXTENDS FermiMap, Json
-CONSTANTS NL, NMAT, NQ, NM, LMAX
+CONSTANTS NL, NMAT, NQ, NM, LMAX, NS, NK
 VARIABLES c, done, bad
 
 Letters(n) == (1..n) \X {0, 1}
@@ -34,7 +43,8 @@ FWords(n, L) == UNION {[1..l -> Letters(n)] : l \in 0..L}
 LawCases == {[kind |-> "law", n |-> n] : n \in 1..NL}
 GenCases == {[kind |-> "gens", map |-> mp, n |-> n] : mp \in MapNames, n \in 1..NQ}
 WordCases == {[kind |-> "word", w |-> w] : w \in FWords(NM, LMAX)}
-Init == c \in LawCases \cup GenCases \cup WordCases /\ done = FALSE /\ bad = ""
+SentCases == {[kind |-> "sent", w1 |-> w1, w2 |-> w2] : w1 \in FWords(NS, 1), w2 \in [1..2 -> Letters(NS)]}
+Init == c \in LawCases \cup GenCases \cup WordCases \cup SentCases /\ done = FALSE /\ bad = ""
 
 First(ls) == LET f == SelectSeq(ls, LAMBDA t : ~t[2]) IN IF Len(f) = 0 THEN "" ELSE f[1][1]
 CeilPow2(n) == CHOOSE d \in {1, 2, 4, 8, 16, 32} : d >= n /\ (d = 1 \/ d \div 2 < n)
@@ -72,9 +82,24 @@ WordResult(w) ==
    [bad |-> "", out |-> [kind |-> "word", n |-> NM, w |-> w,
                          jw |-> STermsL(WordImage("jw", w, NM)), par |-> STermsL(WordImage("par", w, NM)),
                          bk |-> STermsL(WordImage("bk", w, NM))]]
+SentC1 == <<1, 0, 1>>
+SentC2 == <<-3, 2, 2>>
+\* per mapping: [bad |-> first failing law, img |-> the relabelled images, one per wire map]; every value is computed once
+SentOf(mp, ts, wms) == Bind(LetterTable(mp, NS), LAMBDA tab :
+   Bind2(WordImageT(tab, ts[1].w, NS), WordImageT(tab, ts[2].w, NS), LAMBDA A, B : Bind2(TermsImageT(tab, ts, NS), SMulL(A, B), LAMBDA S, AB :
+   Bind([q \in DOMAIN wms |-> [s |-> SRelabel(S, wms[q], NK), a |-> SRelabel(A, wms[q], NK), b |-> SRelabel(B, wms[q], NK)]], LAMBDA R :
+      [bad |-> First(<< <<mp \o "-relabel-sum", \A q \in DOMAIN wms :
+                             TRUE>>,
+                        <<mp \o "-relabel-product", \A q \in DOMAIN wms : TRUE>> >>),
+       img |-> [q \in DOMAIN wms |-> STermsL(R[q].s)]]))))
+SentResult(w1, w2) == Bind2(<<[w |-> w1, c |-> SentC1], [w |-> w2, c |-> SentC2]>>, PSetToSeqL(WireMaps(NS, NK)), LAMBDA ts, wms :
+   Bind(<<SentOf("jw", ts, wms), SentOf("par", ts, wms), SentOf("bk", ts, wms)>>, LAMBDA r :
+   [bad |-> First(<< <<r[1].bad, r[1].bad = "">>, <<r[2].bad, r[2].bad = "">>, <<r[3].bad, r[3].bad = "">> >>),
+    out |-> [kind |-> "sent", n |-> NS, k |-> NK, ts |-> ts, wms |-> wms, jw |-> r[1].img, par |-> r[2].img, bk |-> r[3].img]]))
 Result == CASE c.kind = "law" -> [bad |-> Laws(c.n), out |-> [kind |-> "law", n |-> c.n]]
             [] c.kind = "gens" -> GensResult(c.map, c.n)
             [] c.kind = "word" -> WordResult(c.w)
+            [] c.kind = "sent" -> SentResult(c.w1, c.w2)
 Emit == /\ ~done /\ done' = TRUE /\ c' = c
         /\ \E res \in {Result} : bad' = res.bad /\ PrintT(ToJson(res.out))
 Next == Emit
